@@ -39,7 +39,7 @@ def cut(stream, rng, mode):
 
 class Check(PropertyCheck):
     pid = "C02"
-    gen_files = ["GenAsh", "GenAshFn"]
+    gen_files = ["GenAsh", "GenAshFn", "GenAshRxFn", "GenAshLoopFn"]
     model_imports = ["gen.GenAsh", "model.AshCodec", "model.AshRx"]
     run_expr = "run_c02_case"
     case_type = "(list (list N))"
